@@ -96,6 +96,11 @@ pub struct Case {
     /// immediately before the main call
     #[serde(default)]
     pub pre_du: Vec<i64>,
+    /// k > 0: another client's bulk request (`DiscreteUniform(len + 7, len + 1000).sample_n(k + 5)`,
+    /// values that are no index of the data) is cancelled after k draws on this thread just before
+    /// the main call: the simulated generator refuses the (k+1)-th draw and the unwind is caught
+    #[serde(default)]
+    pub pre_cancel: u64,
     /// shuffle_two only: the SAME slice is passed as both arrays
     #[serde(default)]
     pub alias: bool,
@@ -323,18 +328,27 @@ impl Prop for C19 {
             let n = (run / 4 + 1) as usize;
             let func = [Func::Bootstrap, Func::Jackknife, Func::Shuffle, Func::ShuffleTwo]
                 [(run % 4) as usize];
+            let data = fbs(&gen_data(&mut r, n, "distinct"));
+            let n_boot = 60 + r.below(141) as usize;
+            // short data (2..=40 elements) is visited deep: 3e6 (quick) / 3e7 (thorough) pooled index
+            // draws, so that the chi-square over the positions sees a relative per-position bias of
+            // a few percent (a byte- or table-mapped index sampler) at every short length
+            let deep = func == Func::Bootstrap && (2..=40).contains(&n);
+            let target: usize = match tier { Tier::Quick => 3_000_000, Tier::Thorough => 30_000_000 };
+            let repeat = if deep { (target + n * n_boot - 1) / (n * n_boot) } else { 12 };
             return Case {
                 func,
-                data: fbs(&gen_data(&mut r, n, "distinct")),
+                data,
                 mode: "distinct".into(),
-                n_boot: 60 + r.below(141) as usize,
+                n_boot,
                 seeding: Seeding::gen(&mut r),
                 script: vec![],
-                repeat: 12,
+                repeat,
                 pre: vec![],
                 pre_same: (run % 3 == 2) as usize,
                 pre_prefix: if run % 6 == 2 { n / 2 } else { 0 },
                 pre_du: vec![],
+                pre_cancel: 0,
                 alias: false,
                 alias_mode: 0,
                 pre_perm: false,
@@ -357,6 +371,7 @@ impl Prop for C19 {
                 pre_same: 0,
                 pre_prefix: 0,
                 pre_du: vec![],
+                pre_cancel: 0,
                 alias: false,
                 alias_mode: 0,
                 pre_perm: false,
@@ -460,7 +475,9 @@ impl Prop for C19 {
         let alias = func == Func::ShuffleTwo && r.chance(0.12);
         let alias_mode = if func == Func::ShuffleTwo && !alias && r.chance(0.2) { 2 + r.below(2) as u8 } else { 0 };
         let pre_perm = pre_same > 0 && r.chance(0.4);
-        Case { func, data: fbs(&data), mode: mode.into(), n_boot, seeding, script, repeat, pre, pre_same, pre_prefix, pre_du, alias, alias_mode, pre_perm }
+        // drawn last, so that the cases of earlier engine versions are unchanged for a given seed
+        let pre_cancel = if r.chance(0.12) { 1 + r.below(6) } else { 0 };
+        Case { func, data: fbs(&data), mode: mode.into(), n_boot, seeding, script, repeat, pre, pre_same, pre_prefix, pre_du, alias, alias_mode, pre_perm, pre_cancel }
     }
 
     fn exec(case: &Case, st: &mut Stats) -> Option<Viol> {
@@ -539,6 +556,15 @@ impl Prop for C19 {
             let (lo, hi) = (case.pre_du[0], case.pre_du[1]);
             alea::sim::set_budget(10_000);
             let _ = catch(|| compute::distributions::Distribution::sample(&compute::distributions::DiscreteUniform::new(lo, hi)));
+            alea::sim::clear_budget();
+        }
+        if case.pre_cancel > 0 {
+            st.inc("other_client_bulk_request_cancelled");
+            use compute::distributions::Distribution1D;
+            let (lo, hi) = (n as i64 + 7, n as i64 + 1000);
+            alea::sim::set_budget(case.pre_cancel);
+            let k = case.pre_cancel as usize + 5;
+            let _ = catch(|| compute::distributions::DiscreteUniform::new(lo, hi).sample_n(k).len());
             alea::sim::clear_budget();
         }
         let base = alea::sim::draws();
@@ -991,6 +1017,16 @@ impl Prop for C19 {
             c.pre_du.clear();
             out.push(c);
         }
+        if case.pre_cancel > 0 {
+            let mut c = case.clone();
+            c.pre_cancel = 0;
+            out.push(c);
+            if case.pre_cancel > 1 {
+                let mut c = case.clone();
+                c.pre_cancel = 1;
+                out.push(c);
+            }
+        }
         if case.alias {
             let mut c = case.clone();
             c.alias = false;
@@ -1055,7 +1091,7 @@ impl Prop for C19 {
             "len.len2-8", "len.len9+", "mode.distinct", "mode.repeated", "mode.special", "mode.special_distinct",
             "seeding.seed_clock", "seeding.seed_small", "seeding.seed_set", "fault.rng_zero",
             "fault.rng_max", "fault.rng_tiny", "fault.rng_half", "fault.rng_streak",
-            "stat.dkw_checked", "stat.coverage_checked", "stat.frequency_checked", "stat.joint_checked", "stat.chi_square_checked", "stat.order_checked", "earlier_calls_on_thread", "earlier_calls_on_same_buffer", "earlier_rejected_request", "other_client_draws_first", "call.shuffle_two_aliased", "call.shuffle_two_overlapping", "call.shuffle_two_signed_zero_twin", "earlier_calls_same_values_other_order", "fault.rng_pair",
+            "stat.dkw_checked", "stat.coverage_checked", "stat.frequency_checked", "stat.joint_checked", "stat.chi_square_checked", "stat.order_checked", "earlier_calls_on_thread", "earlier_calls_on_same_buffer", "earlier_rejected_request", "other_client_draws_first", "other_client_bulk_request_cancelled", "call.shuffle_two_aliased", "call.shuffle_two_overlapping", "call.shuffle_two_signed_zero_twin", "earlier_calls_same_values_other_order", "fault.rng_pair",
         ]
         .iter()
         .map(|s| s.to_string())
